@@ -369,7 +369,9 @@ fn scenario_timeout(seed: u64) {
     let opener = {
         let gate = gate.clone();
         std::thread::spawn(move || {
-            std::thread::sleep(Duration::from_millis(60));
+            // far longer than any overhead Miri's clock charges for spawning the helper thread and
+            // building its runtime: an alias that honoured its 1 ms timeout would be back long before
+            std::thread::sleep(Duration::from_millis(5000));
             gate.add_permits(8);
         })
     };
